@@ -41,6 +41,7 @@ class Ctx:
         self.instances = {}   # rid -> list of dict
         self.findings = []
         self.notes = []
+        self.errors = []      # AnalysisError per rule that failed closed
         self._rule = None
 
     # -- recording
@@ -80,16 +81,24 @@ def run_rules(prop, rules, model, tier='quick', only=None):
             continue
         ctx._rule = rd.rid
         ctx.instances.setdefault(rd.rid, [])
-        rd.fn(ctx)
-        n = len(ctx.instances[rd.rid])
-        if n < rd.floor:
-            raise AnalysisError(f'{prop}.{rd.rid}', 'instance-floor',
-                                f'{n} instances analysed, floor is {rd.floor} '
-                                '(an anchor vanished or the rule lost its target)')
+        try:
+            rd.fn(ctx)
+            n = len(ctx.instances[rd.rid])
+            if n < rd.floor:
+                raise AnalysisError(f'{prop}.{rd.rid}', 'instance-floor',
+                                    f'{n} instances analysed, floor is {rd.floor} '
+                                    '(an anchor vanished or the rule lost its target)')
+        except AnalysisError as exc:
+            # fail closed for this rule, but let the other rules report: a violation found by a rule that
+            # completed is not hidden by another rule's engine failure
+            ctx.errors.append(exc)
+            n = len(ctx.instances[rd.rid])
         summary.append({'rule': f'{prop}.{rd.rid}', 'text': rd.text,
                         'instances': n, 'floor': rd.floor,
                         'violations': sum(1 for i in ctx.instances[rd.rid]
                                           if i['status'] != 'ok')})
+    if ctx.errors and not ctx.findings:
+        raise ctx.errors[0]
     return ctx, summary
 
 
